@@ -227,6 +227,17 @@ func (in *Interp) load(st *State, p *Ptr) Val {
 }
 
 func (in *Interp) loadPath(st *State, o *Obj, path string, t types.Type) Val {
+	// an aggregate that was stored as one opaque value (the result of an
+	// uninterpreted call) is read back as that value
+	if isAggregate(t) {
+		if m := st.cells[o]; m != nil {
+			if v, ok := m[path]; ok {
+				if _, isOpaque := v.(*OpaqueV); isOpaque {
+					return v
+				}
+			}
+		}
+	}
 	switch u := t.Underlying().(type) {
 	case *types.Struct:
 		sv := &StructV{T: t}
